@@ -25,7 +25,7 @@ use crate::bucket::event_index::OpenEventIndex;
 use crate::bucket::partition_index::{OpenPartitionIndex, PartitionIndexRecord};
 use crate::bucket::segment::{
     BucketSegmentReader, BucketSegmentWriter, COMMIT_SIZE, EVENT_HEADER_SIZE, LongBytes, RawCommit,
-    RawEvent, RecordHeader, SEGMENT_HEADER_SIZE, ShortString,
+    RawEvent, Record, RecordHeader, SEGMENT_HEADER_SIZE, ShortString,
 };
 use crate::bucket::stream_index::{OpenStreamIndex, StreamIndexRecord};
 use crate::bucket::{BucketId, BucketSegmentId, PartitionId, SegmentKind};
@@ -33,7 +33,9 @@ use crate::database::{
     CurrentVersion, ExpectedVersion, NewEvent, PartitionLatestSequence, StreamLatestVersion,
     Transaction,
 };
-use crate::error::{EventValidationError, PartitionIndexError, StreamIndexError, WriteError};
+use crate::error::{
+    EventValidationError, PartitionIndexError, ReadError, StreamIndexError, WriteError,
+};
 use crate::id::get_uuid_flag;
 use crate::reader_thread_pool::ReaderThreadPool;
 
@@ -314,12 +316,26 @@ impl Worker {
         let now = Instant::now();
         for &bucket_id in bucket_ids.iter() {
             if bucket_id_to_thread_id(bucket_id, bucket_ids, num_threads) == Some(thread_id) {
-                let (bucket_segment_id, writer) =
+                let (bucket_segment_id, mut writer) =
                     BucketSegmentWriter::latest(bucket_id, &dir, segment_size, compression)?;
                 let mut reader = BucketSegmentReader::open(
                     SegmentKind::Events.get_path(&dir, bucket_segment_id),
                     Some(writer.flushed_offset()),
                 )?;
+
+                // A crash can leave the events of a transaction without its commit record at
+                // the end of the segment. They were never acknowledged and no reader returns
+                // them, so they must not be indexed nor consume sequences and versions:
+                // drop them before hydrating the indexes.
+                match committed_end_offset(&mut reader) {
+                    Ok(committed_end) if committed_end < writer.write_offset() => {
+                        writer.set_len(committed_end)?;
+                    }
+                    Ok(_) => {}
+                    Err(err) => {
+                        error!("failed to scan {bucket_segment_id} for a torn transaction: {err}");
+                    }
+                }
 
                 let mut event_index = OpenEventIndex::open(
                     bucket_segment_id,
@@ -1169,6 +1185,35 @@ impl WriterSet {
             }),
         )
     }
+}
+
+/// Returns the offset right after the last complete committed group (a flagged single
+/// event, or the events of a transaction followed by its commit record) of a segment.
+fn committed_end_offset(reader: &mut BucketSegmentReader) -> Result<u64, ReadError> {
+    let mut committed_end = SEGMENT_HEADER_SIZE as u64;
+    let mut open_transaction_id: Option<Uuid> = None;
+    let mut iter = reader.iter();
+    while let Some(record) = iter.next_record()? {
+        let end = record.offset() + record.len();
+        match record {
+            Record::Event(event) => {
+                if get_uuid_flag(&event.transaction_id) {
+                    committed_end = end;
+                    open_transaction_id = None;
+                } else {
+                    open_transaction_id = Some(event.transaction_id);
+                }
+            }
+            Record::Commit(commit) => {
+                if open_transaction_id == Some(commit.transaction_id) {
+                    committed_end = end;
+                }
+                open_transaction_id = None;
+            }
+        }
+    }
+
+    Ok(committed_end)
 }
 
 struct PendingIndex {
